@@ -345,6 +345,7 @@ pub fn jobs(pn: u32, tier: Tier) -> Vec<Job> {
             for (fam, vals) in [("map", vec!["u64"]), ("set", vec!["u64", "bare"])] {
                 v.push(job(&format!("{}-tree-churn", fam), random(ord_cases(id, ord_mix(fam, "tree", &vals, &[8, 16, 64], w, 0..=300, 3)), n(6_000, 150_000)), rule.clone(), &req));
                 v.push(job(&format!("{}-tree-big", fam), random(ord_cases(id, ord_mix(fam, "tree", &vals, &[300, 3000], w, 300..=1500, 3)), n(150, 4_000)), rule.clone(), &["height_ge_6", "arena_growth_x2"]));
+                v.push(job(&format!("{}-tree-insertion-runs", fam), random(ord_runs_cases(id, fam, "tree", vals.clone(), [0, 6, 0, 0, 0, 0, 0, 3, 0, 0]), n(800, 20_000)), rule.clone(), &["run_ascending", "run_descending", "height_ge_6"]));
                 if !q {
                     let mut m = ord_mix(fam, "tree", &vals, &[4096, 100_000], w, 0..=4000, 3);
                     m.snap = true;
@@ -381,6 +382,7 @@ pub fn jobs(pn: u32, tier: Tier) -> Vec<Job> {
             v.push(job(&format!("{}-tree-medium", fam), random(ord_cases(id, ord_mix(fam, "tree", &vals, &[16, 64], w, 0..=300, 3)), n(5_000, 120_000)), rule.clone(), &req));
             v.push(job(&format!("{}-tree-big", fam), random(ord_cases(id, ord_mix(fam, "tree", &vals, &[300, 3000], w, 300..=1500, 3)), n(150, 4_000)), rule.clone(), &["height_ge_6"]));
             v.push(job(&format!("{}-tree-big-clear-big", fam), random(ord_clear_cases_sized(id, fam, "tree", vals.clone(), vec![300, 3000], 100..=500), n(100, 3_000)), rule.clone(), &[]));
+            v.push(job(&format!("{}-tree-insertion-runs", fam), random(ord_runs_cases(id, fam, "tree", vals.clone(), [0, 6, 4, 0, 0, 0, 1, 0, 0, 0]), n(600, 15_000)), rule.clone(), &["run_ascending", "run_descending"]));
             if !q {
                 v.push(job(&format!("{}-tree-large", fam), random(ord_cases(id, ord_mix(fam, "tree", &vals, &[4096, 1_000_000], w, 0..=4000, 3)), 600), rule.clone(), &[]));
             }
@@ -413,6 +415,7 @@ pub fn jobs(pn: u32, tier: Tier) -> Vec<Job> {
             for (fam, vals) in [("map", vec!["u64", "string"]), ("set", vec!["u64", "string"])] {
                 v.push(job(&format!("{}-tree-handles", fam), random(ord_cases(id, ord_mix(fam, "tree", &vals, &[4, 6, 8, 16, 64], w, 0..=120, 1)), n(8_000, 200_000)), rule.clone(), &req));
                 v.push(job(&format!("{}-tree-handles-big", fam), random(ord_cases(id, ord_mix(fam, "tree", &vals, &[300, 3000], [40, 14, 2, 0, 0, 20, 8, 12, 0, 0], 300..=1500, 3)), n(120, 3_000)), rule.clone(), &["height_ge_6"]));
+                v.push(job(&format!("{}-tree-insertion-runs", fam), random(ord_runs_cases(id, fam, "tree", vals.clone(), [0, 2, 0, 0, 0, 6, 2, 2, 0, 0]), n(600, 15_000)), rule.clone(), &["run_ascending", "run_descending"]));
                 v.push(job(&format!("{}-tree-big-clear-big", fam), random(ord_clear_cases_sized(id, fam, "tree", vals.clone(), vec![300, 3000], 100..=500), n(80, 2_000)), rule.clone(), &[]));
                 v.push(job(&format!("{}-tree-enum", fam), JobKind::Enumerate { spec: ord_enum(id, fam, "tree", "u64", if q { 6 } else { 8 }, true, &[O_HSWEEP], 2_000_000) }, rule.clone(), &[]));
             }
@@ -424,6 +427,9 @@ pub fn jobs(pn: u32, tier: Tier) -> Vec<Job> {
             v.push(job("set-tree-steps", random(ord_cases(id, ord_mix("set", "tree", &["u64", "string", "bare"], &[4, 6, 8, 16, 64], w, 0..=120, 1)), n(10_000, 250_000)), rule.clone(), &req));
             v.push(job("set-tree-steps-big", random(ord_cases(id, ord_mix("set", "tree", &["u64", "bare"], &[300, 3000], [50, 18, 0, 0, 0, 0, 0, 6, 20, 1], 300..=1500, 3)), n(120, 3_000)), rule.clone(), &["height_ge_6"]));
             v.push(job("set-tree-big-clear-big", random(ord_clear_cases_sized(id, "set", "tree", vec!["u64", "bare"], vec![300, 3000], 100..=500), n(80, 2_000)), rule.clone(), &[]));
+            // structured insertion orders: blocks of descending / ascending runs build the sparse,
+            // maximally deep shapes random orders practically never produce
+            v.push(job("set-tree-insertion-runs", random(ord_runs_cases(id, "set", "tree", vec!["u64", "bare"], [0, 2, 0, 0, 0, 0, 0, 1, 6, 1]), n(1_500, 40_000)), rule.clone(), &["run_ascending", "run_descending", "height_ge_6"]));
             if !q {
                 v.push(job("set-tree-steps-large", random(ord_cases(id, ord_mix("set", "tree", &["u64", "bare"], &[4096], [60, 20, 0, 0, 0, 0, 0, 4, 10, 1], 0..=3000, 3)), 400), rule.clone(), &[]));
             }
@@ -441,6 +447,9 @@ pub fn jobs(pn: u32, tier: Tier) -> Vec<Job> {
             }
             v.push(job("seg", random(seg_cases(id, SegMix { w: [30, 30, 12, 2, 4, 10, 10], len: 0..=60, thorough: !q, only_small: false }), n(8_000, 200_000)), rule.clone(), &[]));
             v.push(job("seg-long", random(seg_cases(id, SegMix { w: [50, 20, 8, 1, 3, 12, 6], len: 100..=600, thorough: !q, only_small: false }), n(300, 8_000)), rule.clone(), &[]));
+            v.push(job("map-tree-insertion-runs", random(ord_runs_cases(id, "map", "tree", vec!["u64", "string"], [0, 4, 2, 0, 0, 2, 1, 2, 0, 0]), n(400, 10_000)), rule.clone(), &[]));
+            v.push(job("set-tree-insertion-runs", random(ord_runs_cases(id, "set", "tree", vec!["u64", "bare"], [0, 4, 2, 0, 0, 2, 1, 2, 4, 1]), n(400, 10_000)), rule.clone(), &[]));
+            v.push(job("set-list-insertion-runs", random(ord_runs_cases(id, "set", "list", vec!["u64"], [0, 4, 2, 0, 0, 2, 1, 2, 4, 1]), n(200, 5_000)), rule.clone(), &[]));
             for coll in ["tree", "list"] {
                 v.push(job(&format!("key-{}-big", coll), random(key_cases(id, key_mix(coll, &[300, 3000], 1500, 30, [50, 6, 6, 6, 8, 16, 1, 1], 300..=1500, Some(0..=600))), n(100, 3_000)), rule.clone(), &[]));
                 v.push(job(&format!("map-{}-big", coll), random(ord_cases(id, ord_mix("map", coll, &["u64", "string"], &[300, 3000], mw, 300..=1500, 3)), n(100, 3_000)), rule.clone(), &[]));
@@ -537,6 +546,7 @@ pub fn jobs(pn: u32, tier: Tier) -> Vec<Job> {
             for (fam, vals) in [("map", vec!["u64", "string"]), ("set", vec!["u64", "string", "bare"])] {
                 v.push(job(&format!("{}-tree-held-handles", fam), random(ord_cases(id, ord_mix(fam, "tree", &vals, &[16, 64, 300, 2000], w, 0..=150, 1)), n(8_000, 200_000)), rule.clone(), &["held_ge_2_across_insert"]));
                 v.push(job(&format!("{}-tree-held-handles-big", fam), random(ord_cases(id, ord_mix(fam, "tree", &vals, &[1000, 5000], [70, 2, 4, 0, 0, 4, 2, 1, 0, 0], 200..=700, 1)), n(100, 3_000)), rule.clone(), &["height_ge_6"]));
+                v.push(job(&format!("{}-tree-insertion-runs", fam), random(ord_runs_cases(id, fam, "tree", vals.clone(), [2, 0, 1, 0, 0, 1, 0, 0, 0, 0]), n(600, 15_000)), rule.clone(), &["run_ascending", "run_descending"]));
                 v.push(job(&format!("{}-tree-enum", fam), JobKind::Enumerate { spec: ord_enum(id, fam, "tree", "u64", if q { 6 } else { 8 }, false, &[], 2_000_000) }, rule.clone(), &[]));
             }
         }
